@@ -233,7 +233,7 @@ def run_kani(slot, prop, harnesses, jobs, logdir, extra=(), timeout_pad=120, mem
         cmd += ["-j", str(jobs), "--output-format", "terse"]
     for h in harnesses:
         cmd += ["--harness", hid_of(prop, h)]
-    mem_kb = int((mem_gb or prop.get("mem_gb", 12)) * 1024 * 1024)
+    mem_kb = int((mem_gb or float(os.environ.get("VERIF_MEM_GB", 0)) or prop.get("mem_gb", 12)) * 1024 * 1024)
     sh = "ulimit -v %d; exec %s" % (mem_kb, " ".join("'%s'" % c for c in cmd))
     rounds = (len(harnesses) + jobs - 1) // jobs
     wall = 600 + rounds * (tmax + timeout_pad)
@@ -415,6 +415,9 @@ def match_known(known, pid, hname, failed_checks):
     return hits
 
 
+PARTIAL_RUN = False  # set when --only restricts the harness set: such a run never overwrites evidence/<id>.json
+
+
 def write_evidence(pid, tier, seed, prop, results, wall, violations, notes):
     if os.environ.get("VERIF_NO_EVIDENCE"):
         return
@@ -469,8 +472,23 @@ def write_evidence(pid, tier, seed, prop, results, wall, violations, notes):
         "wall_s": round(wall, 2),
         "violations": violations,
     }
-    os.makedirs(os.path.join(VERIF, "evidence"), exist_ok=True)
-    with open(os.path.join(VERIF, "evidence", pid + ".json"), "w") as f:
+    # the level's own keys, all measured on this run: states = symbolic-execution steps CBMC took through the
+    # compiled code, transitions = verification conditions it generated from them, traces = solver
+    # counterexamples re-executed against the native build
+    def _num(x):
+        try:
+            return int(float(x))
+        except (TypeError, ValueError):
+            return 0
+    n_states = sum(_num(x["symex_steps"]) for x in samples)
+    n_trans = sum(_num(x["vccs"]) for x in samples)
+    if n_states > 0 and n_trans > 0:
+        ev["coverage"]["states"] = n_states
+        ev["coverage"]["transitions"] = n_trans
+        ev["coverage"]["traces_validated_against_impl"] = sum(1 for x in samples if x.get("replay"))
+    edir = os.path.join(VERIF, "evidence") if not PARTIAL_RUN else os.path.join(VERIF, "out", "evidence-partial")
+    os.makedirs(edir, exist_ok=True)
+    with open(os.path.join(edir, pid + ".json"), "w") as f:
         json.dump(ev, f, indent=1)
 
 
@@ -479,6 +497,8 @@ def run_property(pid, tier, only, jobs, keep, seed):
     t0 = time.time()
     hs = [h for h in prop["harnesses"] if tier == "thorough" or h.get("tier", "quick") == "quick"]
     if only:
+        global PARTIAL_RUN
+        PARTIAL_RUN = True
         hs = [h for h in hs if re.search(only, h["name"])]
     if not hs:
         raise SystemExit("no harness selected")
